@@ -97,6 +97,11 @@ def run(res, a):
             k, "persistently until OKAY" if mode else "once", kind, text, "\n".join(lines))
         res.violation("impl:" + kind, "%s with OS failure injected at call %d (%s), workload %s/options#%d: %s" % (kind, k, "persistent" if mode else "single", profile, si, text),
                       witness=wit, replay_name="C07_%s_%s_%d_k%d_m%d.trace" % (kind, profile, si, k, mode))
+    try:
+        import commitmodel
+        commitmodel.run(res, a.seed, a.tier)
+    except ImportError:
+        pass
     res.cov["evaluations"] += stats["fault_runs"] + nwork
     res.cov["distinct_nontrivial"] += stats["fault_runs"]
     res.cov["traces_validated_against_impl"] += stats["fault_runs"]
